@@ -10,5 +10,6 @@ trap 'git -C /repo worktree remove --force "$wt" >/dev/null 2>&1; rm -rf "$wt"' 
 # carry over uncommitted changes of /repo's working tree (checks always run against the working tree)
 if ! git -C /repo diff --quiet HEAD; then git -C /repo diff HEAD | git -C "$wt" apply; fi
 if ! git -C "$wt" apply "$patch"; then echo "PATCH DOES NOT APPLY: $patch"; exit 3; fi
+for d in go/mcap go/ros; do (cd "$wt/$d" && GOFLAGS= GOPROXY=off GOSUMDB=off GOTOOLCHAIN=local go build ./... >/dev/null 2>&1) || { echo "TOOL: PATCH DOES NOT BUILD: $patch"; exit 3; }; done
 GOVC_REPO="$wt" GOVC_NOEVIDENCE=1 /verif/bin/govc check -prop "$prop" -tier "$tier" 2>&1 | grep -v conda | grep -E '^(VIOLATION|KNOWN|UNDECIDED|TOOL|property|DETACHED)' | sed "s#$wt#/repo#g"
 exit ${PIPESTATUS[0]}
